@@ -615,7 +615,7 @@ pub fn op_strategy(p: &Profile) -> BoxedStrategy<Op> {
         (p.w_traffic, traffic.boxed()),
         (p.w_burst, (4u8..16).prop_map(Op::Burst).boxed()),
         (p.w_churn, (8u8..40).prop_map(Op::Churn).boxed()),
-        (p.w_outage, (0u8..3, proptest::collection::vec((0u8..16, outcome()), 0..5), 0u8..4).prop_map(|(by, events, attempts)| Op::Outage { by, events, attempts }).boxed()),
+        (p.w_outage, (0u8..3, proptest::collection::vec((0u8..16, outcome()), 0..5), 0u8..7).prop_map(|(by, events, attempts)| Op::Outage { by, events, attempts }).boxed()),
         (p.w_oracle_toggle, Just(Op::OracleToggle).boxed()),
         (p.w_query, query.boxed()),
     ];
